@@ -79,6 +79,11 @@ def gen_schema(rng, tier):
                     if rel[0] == nm:
                         rel[1].insert(rng.randrange(1, len(rel[1]) + 1), ["tag", "string", False])
             feats.append("sharedcol")
+        if rng.random() < 0.15:
+            for rel in sch:
+                if rel[0] in ("item", "result"):
+                    rel[1].append(["score", "float", False])
+            feats.append("floatcol")
         if rng.random() < 0.12:
             rel = rng.choice(sch)
             rng.shuffle(rel[1])
@@ -125,6 +130,10 @@ def gen_value(rng, dtype, is_key, colname):
         if r < 0.2:
             return None
         return rng.choice(DATE_POOL)
+    if dtype == "float":
+        if r < 0.2:
+            return None
+        return rng.choice(["0.5", "1", "2.25", "-1.5", "1e1", "10"])
     raise ValueError(dtype)
 
 
@@ -165,6 +174,8 @@ def j_val(v):
         return {"s": cps(v)}
     if isinstance(v, datetime.datetime):
         return {"d": date_num(v)}
+    if isinstance(v, float):
+        return None        # :float cells: the model only type-checks conditions on them
     raise TypeError(type(v))
 
 
@@ -201,6 +212,8 @@ def gen_colref(rng, sch, prefer=None, qual_p=0.3):
 
 
 def gen_lit(rng, dtype):
+    if dtype == "float":
+        dtype = "integer"
     if dtype == "integer":
         return {"i": rng.choice([-1, 0, 1, 2, 3, 5, 7, 10, 100])}
     if dtype == "string":
@@ -239,6 +252,8 @@ def data_lit(rng, sch, data, col, dtype):
 def gen_leaf(rng, sch, prefer, mismatch_p, data=None):
     col, dtype = gen_colref(rng, sch, prefer)
     lt = dtype
+    if dtype == "float":
+        lt = rng.choice(["integer", "integer", "string", "date"])     # (int, float) accepts an integer literal
     if rng.random() < mismatch_p:
         lt = rng.choice([t for t in ("integer", "string", "date") if t != dtype])
     lit = None
@@ -345,7 +360,7 @@ def diverge(rng, sch, data, c):
     row = [gen_value(rng, f[1], f[2], f[0]) for f in fields[a]]
     i = [f[0] for f in fields[a]].index(c)
     f = fields[a][i]
-    row[i] = {"integer": "9", "string": "zz", "date": "9-sep-2009"}[f[1]]
+    row[i] = {"integer": "9", "string": "zz", "date": "9-sep-2009", "float": "9.5"}[f[1]]
     data[a].append(row)
     b = rng.choice([r for r in rels if r != a] or rels)
     if data[b]:
@@ -861,7 +876,7 @@ def oracle_rows(sch, data, q, only_needed=False):
     for lf in leaves(cond):
         rel, c = resolve(lf[2])
         cond_cols[lf[2]] = (rel, c)
-        want = {"integer": int, "string": str, "date": datetime.datetime}[ftype(rel, c)[1]]
+        want = {"integer": int, "string": str, "date": datetime.datetime, "float": (int, float)}[ftype(rel, c)[1]]
         v = lit_value(lf[3])
         if not isinstance(v, want) or isinstance(v, bool):
             mism = True
@@ -1178,6 +1193,45 @@ class C11(Check):
         for wh in ([["leaf", "==", "i-length", {"i": 10}]], [["leaf", ">", "i-date", {"d": "2019-01-01"}]]):
             yield self.make_case(rng, sch, d_odd, {"proj": ["i-id", "i-length", "i-date"], "rels": [], "wheres": wh},
                                  plain=True)
+        # F56 (fixed by c87b4f8): a mistyped literal on a :float column is a type mismatch like any other
+        sch_f = base_schema()
+        sch_f[0][1].append(["score", "float", False])
+        d_f = {"item": [["1", "a", "1", None, "0.5"], ["2", "b", "2", None, None], ["3", "c", "3", None, "2"]],
+               "run": [], "parse": [], "result": []}
+        for lit in ({"s": "x"}, {"d": "2020-01-01"}, {"i": 2}):
+            for op in (["==", "!="] + (["~"] if "s" in lit else ["<", ">="])):
+                yield self.make_case(rng, sch_f, d_f, {"proj": ["i-id", "score"], "rels": [],
+                                                       "wheres": [["leaf", op, "score", lit]]}, plain=True)
+        # wave E: relations with TWO key columns, keys mentioned in non-schema order; composite join keys
+        sch_2k = base_schema()
+        for f in sch_2k[3][1]:
+            if f[0] == "result-id":
+                f[2] = True
+        sch_2k[3][1].insert(2, ["run-id", "integer", True])
+        sch_2k.append(["edge", [["result-id", "integer", True], ["parse-id", "integer", True], ["e-lab", "string", False]]])
+        d_2k = {"item": [["1", "a", "1", None], ["2", "b", "2", None]], "run": [["1", "r1", None], ["2", "r2", None]],
+                "parse": [["10", "1", "1", "1", None], ["11", "2", "1", "2", None], ["12", "1", "2", "3", None]],
+                "result": [["10", "0", "1", "m"], ["10", "1", "1", "n"], ["11", "0", "2", "o"], ["11", "0", "1", "p"],
+                           ["12", "1", "1", "q"]],
+                "edge": [["0", "10", "e1"], ["1", "10", "e2"], ["0", "11", "e3"], ["10", "0", "swapped"], ["1", "12", "e4"]]}
+        for proj, rels, wh in ((["result-id", "parse-id", "mrs"], [], []), (["mrs", "e-lab"], [], []),
+                               (["e-lab", "mrs"], ["edge", "result"], []), (["result.result-id", "edge.parse-id", "e-lab"], [], []),
+                               (["*"], ["edge", "result"], []), (["*"], ["result", "edge"], []),
+                               (["run-id", "result-id", "parse-id"], ["result"], []), (["r-comment", "mrs"], [], []),
+                               (["readings", "mrs"], [], []), (["readings", "e-lab"], [], []),
+                               (["i-input", "e-lab"], [], []),
+                               (["mrs"], [], [["leaf", "==", "edge.result-id", {"i": 0}]]),
+                               (["e-lab"], [], [["and", [["leaf", "==", "result.parse-id", {"i": 10}],
+                                                          ["leaf", ">", "result.result-id", {"i": 0}]]]])):
+            yield self.make_case(rng, sch_2k, d_2k, {"proj": proj, "rels": rels, "wheres": wh}, plain=True)
+        # wave E: string / regex operands that begin or end with a blank
+        d_b = {"item": [["1", " dog", "1", None], ["2", "dog ", "2", None], ["3", "dog", "3", None], ["4", " ", "4", None],
+                        ["5", None, "5", None], ["6", "a dog b", "6", None]], "run": [], "parse": [], "result": []}
+        for lit in (" dog", "dog ", " ", "dog", " dog ", "g $", "^ ", " $"):
+            for op in ("==", "!=", "~", "!~"):
+                for plain in (True, False):
+                    yield self.make_case(rng, sch, d_b, {"proj": ["i-id", "i-input"], "rels": [],
+                                                         "wheres": [["leaf", op, "i-input", {"s": lit}]]}, plain=plain)
         # (c) not / ! directly over every comparison, on rows whose compared field is empty
         for col, lit in (("i-length", {"i": 2}), ("i-date", {"d": "2020-01-15"}), ("i-input", {"s": "dog"})):
             for op in EQ_OPS + ([] if "s" in lit else ORD_OPS) + (RE_OPS if "s" in lit else []):
@@ -1199,7 +1253,7 @@ class C11(Check):
                 steps = []
                 for proj, rels in seq:
                     sc = self.make_case(rng, sch, sess, {"proj": proj, "rels": rels, "wheres": []}, plain=True)
-                    steps.append({"q": sc["q"], "text": sc["text"], "toks": sc["toks"]})
+                    steps.append({"q": sc["q"], "text": sc["text"], "toks": sc["toks"], "words": sc["words"]})
                 yield {"kind": "session", "schema": sch, "data": sess, "steps": steps, "column": seq[0][0][0],
                        "suite": suite, "text": steps[0]["text"]}
         for text in ("i-id where i-date = now", "i-id where i-date < :today", "i-id where i-date >= now"):
@@ -1268,7 +1322,7 @@ class C11(Check):
                 steps = []
                 for sq in qs:
                     sc = self.make_case(rng, sch, data, sq, plain=rng.random() < 0.7)
-                    steps.append({"q": sq, "text": sc["text"], "toks": sc["toks"]})
+                    steps.append({"q": sq, "text": sc["text"], "toks": sc["toks"], "words": sc["words"]})
                 yield {"kind": "session", "schema": sch, "data": data, "steps": steps, "column": col,
                        "suite": suite, "text": steps[0]["text"], "feats": feats}
             elif r < 0.16 and q["wheres"]:
@@ -1374,7 +1428,8 @@ class C11(Check):
                     t = uncps(st["text"])
                     got = run(lambda: list(tsql.select(t, shared)))
                     fresh = run(lambda: list(tsql.select(t, tsdb.Database(d))))
-                    out.append({"parse": self._parse(t), "rows": got, "fresh": fresh})
+                    out.append({"parse": self._parse(t), "rows": got, "fresh": fresh,
+                                "lex": real_lex(t) if lex_comparable(t) else None})
             finally:
                 shutil.rmtree(d, ignore_errors=True)
             return {"steps": out, "parse": out[0]["parse"]}
@@ -1406,6 +1461,8 @@ class C11(Check):
     # ---- model
     def model_request(self, case):
         r = self._model_request(case)
+        if r is None:
+            self._norequest = self.__dict__.get("_norequest", 0) + 1
         if r is not None and lex_comparable(uncps(case["text"])):
             r["text"] = case["text"]
         return r
@@ -1418,14 +1475,23 @@ class C11(Check):
             return {"op": "lex"}
         if k == "session":
             reqs = [self._model_request({"kind": "select", "schema": case["schema"], "data": case["data"],
-                                         "q": st["q"], "toks": st["toks"], "text": st["text"]})
+                                         "q": st["q"], "toks": st["toks"], "text": st["text"],
+                                         **({"words": st["words"]} if "words" in st else {})})
                     for st in case["steps"]]
             rx = []
             for r in reqs:
                 for e in r["rx"]:
                     if e not in rx:
                         rx.append(e)
-            return {"op": "session", "db": reqs[0]["db"], "rx": rx, "steps": [{"toks": r["toks"]} for r in reqs]}
+            steps = []
+            for r, st in zip(reqs, case["steps"]):
+                one = {"toks": r["toks"]}
+                if "words" in r:
+                    one["words"] = r["words"]
+                if lex_comparable(uncps(st["text"])):
+                    one["text"] = st["text"]
+                steps.append(one)
+            return {"op": "session", "db": reqs[0]["db"], "rawdb": reqs[0]["rawdb"], "rx": rx, "steps": steps}
         if k in ("kwprefix", "notprec"):
             toks = real_tokens(uncps(case["text"]))
             if toks is None:
@@ -1476,7 +1542,12 @@ class C11(Check):
     def model_expected(self, case, res):
         return res
 
-    def model_compare(self, case, expected, answer):
+    def model_compare(self, case, expected, answer, count=True):
+        tie = self.__dict__.setdefault("_tie", {})
+
+        def cnt(k):
+            if count:
+                tie[k] = tie.get(k, 0) + 1
         if "proto_error" in answer:
             return {"proto_error": answer}
         if case["kind"] == "session":
@@ -1484,8 +1555,13 @@ class C11(Check):
             if len(steps) != len(expected["steps"]):
                 return {"what": "steps", "model": answer}
             for i, (st, e, a) in enumerate(zip(case["steps"], expected["steps"], steps)):
-                d = self.model_compare({"kind": "select", "q": st["q"], "text": st["text"]},
-                                       {"parse": e["parse"], "rows": e["rows"]}, a)
+                pc = {"kind": "select", "q": st["q"], "text": st["text"]}
+                if "words" in st:
+                    pc["words"] = st["words"]
+                pe = {"parse": e["parse"], "rows": e["rows"]}
+                if e.get("lex") is not None:
+                    pe["lex"] = e["lex"]
+                d = self.model_compare(pc, pe, a)
                 if d is not None:
                     d["step"] = i
                     return d
@@ -1494,11 +1570,16 @@ class C11(Check):
             if "lex" in expected and canon_plain(expected["lex"]) != canon_plain(answer):
                 return {"what": "lex", "impl": expected["lex"], "model": answer}
             return None
-        if "lex" in expected and canon_plain(expected["lex"]) != canon_plain(answer.get("lex")):
-            return {"what": "lex", "impl": expected["lex"], "model": answer.get("lex")}
+        if "lex" in expected:
+            cnt("lexer: token streams compared")
+            if canon_plain(expected["lex"]) != canon_plain(answer.get("lex")):
+                return {"what": "lex", "impl": expected["lex"], "model": answer.get("lex")}
+        elif case["kind"] not in ("session",):
+            cnt("lexer: not compared (non-ASCII or other line separators)")
         if canon_plain(expected["parse"]) != canon_plain(answer.get("parse")):
             return {"what": "parse", "impl": expected["parse"], "model": answer.get("parse")}
         if case["kind"] != "select":
+            cnt("parse tree compared only (%s)" % case["kind"])
             return None
         comp = answer.get("composed")
         if comp is not None and "text" in case and lex_comparable(uncps(case["text"])):
@@ -1510,7 +1591,7 @@ class C11(Check):
             if not unm:
                 d = self.model_compare({"kind": "select", "q": case["q"], "text": case["text"]},
                                        {"parse": expected["parse"], "rows": expected.get("rows")},
-                                       {"parse": comp.get("parse"), "rows": comp.get("rows")})
+                                       {"parse": comp.get("parse"), "rows": comp.get("rows")}, count=False)
                 if d is not None:
                     d["what"] = "composed (C11 with C08's cast, from text and raw cells): " + str(d.get("what"))
                     return d
@@ -1518,19 +1599,25 @@ class C11(Check):
             return {"what": "the generator's words are not spellings (spells/seqOKW) of the lexed tokens",
                     "text": uncps(case["text"])}
         if "err" in expected["parse"]:
+            cnt("select: parse error tag compared only")
             return None
         er, mr = expected.get("rows"), answer.get("rows")
         if mr is None:
             return {"what": "rows missing", "impl": er}
         if "err" in mr and mr["err"] == "unmodelled":
+            cnt("select: model answers unmodelled (not compared)")
             return None
         if "err" in er or "err" in mr:
             if er.get("err") != mr.get("err"):
                 return {"what": "rows", "impl": er, "model": mr}
+            cnt("select: compared by error tag only (%s)" % er.get("err"))
             return None
         a, b = er["ok"], mr["ok"]
         if not mr.get("ordered", True):
+            cnt("select: rows compared as multisets (plan order depends on a Python set)")
             a, b = sorted(a, key=repr), sorted(b, key=repr)
+        else:
+            cnt("select: rows compared exactly, in order")
         if a != b:
             return {"what": "rows", "impl": er, "model": mr}
         return None
@@ -1657,7 +1744,10 @@ class C11(Check):
         return None
 
     def extra_evidence(self):
-        return {"composed_with_C08": dict(self.__dict__.get("_composed", {}))}
+        tie = dict(self.__dict__.get("_tie", {}))
+        tie["cases without a model request (kwdate: now/:today are not deterministic)"] = \
+            self.__dict__.get("_norequest", 0)
+        return {"composed_with_C08": dict(self.__dict__.get("_composed", {})), "tie": tie}
 
     def nontrivial_key(self, case, res):
         if case["kind"] == "session":
